@@ -40,6 +40,7 @@ const sendTimeout = 100 * time.Millisecond
 // ---------------------------------------------------------------- local
 
 type localLink struct {
+	smu     sync.Mutex // a send and the close of the client side never overlap
 	c       wamp.Peer
 	in      chan wamp.Message
 	once    sync.Once
@@ -75,11 +76,13 @@ func newLocalLink(r router.Router) *localLink {
 func (l *localLink) isLocal() bool { return true }
 
 func (l *localLink) sendTyped(m wamp.Message) (err error) {
-	defer func() {
-		if recover() != nil {
-			err = errDown // we closed our own sending side
-		}
-	}()
+	l.smu.Lock()
+	defer l.smu.Unlock()
+	select {
+	case <-l.down:
+		return errDown
+	default:
+	}
 	t := time.NewTimer(sendTimeout)
 	defer t.Stop()
 	select {
@@ -100,8 +103,10 @@ func (l *localLink) sendWSFrame(int, []byte) error { return errors.New("not a we
 func (l *localLink) incoming() <-chan wamp.Message { return l.in }
 func (l *localLink) close() {
 	l.once.Do(func() {
-		close(l.down)
+		close(l.down) // a blocked send returns, later sends are refused
+		l.smu.Lock()
 		l.c.Close()
+		l.smu.Unlock()
 	})
 }
 
